@@ -32,7 +32,7 @@ VARIABLES cfg,       \* [hint : BOOLEAN]  locator carries a +size hint
 
 gvars == <<cfg, open, badIn, goodSeen>>
 
-Readers == 1 .. 4
+Readers == 1 .. 8
 
 \* 200 answers carrying the right bytes
 GoodKinds(hint) == IF hint THEN {"ok", "chunked_ok"} ELSE {"ok"}
